@@ -11,6 +11,9 @@ TIE = ("The theorems are about a hand-written, executable, code-mirroring Lean m
 CLAIMS = {
  "C01": "Proved for every input: each modelled parser (certificate, key certificate, KeysAndCert incl. both key-type-specific readers, Destination, RouterIdentity, mapping, I2PString, signature, offline signature, leases, router address, RouterInfo, LeaseSet, LeaseSet2, MetaLeaseSet, EncryptedLeaseSet) returns a value whose serialisation followed by the remainder is the input. " + TIE,
  "C03": "Proved for every input and every appended byte string: suffix, append-stability and no-accepted-proper-prefix for every remainder-returning parser of the model (the third derived once from the second). " + TIE,
+ "C04": "Proved for every input (and every 16-bit type argument): a second, *checked* Lean layer mirrors the Go slice/index/make expressions of the readers one by one with Go's bounds rules (slice = window on an array with capacity), never returns a panic, and equals the pure model (59 theorems: data primitives, certificate, key certificate, ReadKeysAndCert and both key-type-specific readers, ReadDestination, ReadSignature, ReadOfflineSignature, leases, the LeaseSet2 header/offline/keys/leases/signature helpers with loop bounds, ReadEncryptedLeaseSet). The pre-repair order of ReadKeysAndCert is kept as a definition with a proved sliceOOB witness. Not mirrored (explored only): ReadMapping, MetaLeaseSet, RouterAddress, RouterInfo, ReadLeaseSet, serialisers. Every generated input of every parser/decoder/lookup group runs under recover and a per-call deadline on the real library; accepted values get every exported argument-free method called by reflection. Running time itself is enforced, not proved (partial). " + TIE,
+ "C05": "Proved for EVERY verification oracle C (no assumption on it), for RouterInfo, LeaseSet, LeaseSet2, MetaLeaseSet, EncryptedLeaseSet and OfflineSignature: if the model's Verify succeeds on a parsed value then C accepts the signature under the identity's own key (located in the raw input: end of the 384-byte block, or the blinded key) over prefix ++ exactly the received bytes minus the signature, and — with an offline block — C accepts the transient key's signature AND the identity key's signature over expires‖type‖transient key, both located in the raw input. The field-level parser is proved to agree with the byte-level model; Verify is proved equal to 'all obligations hold', and the obligation list is what the driver prints and the harness compares with the library's accessors. The pre-repair Verify is kept as a definition with a proved forged witness. Unforgeability (flipping a bit turns success into failure) is computational, not a theorem: it is exercised by adversarial derivations (wrong key, other key present, near-miss messages, bit flips, forged/transplanted offline blocks) judged by independent verification over the raw bytes. " + TIE,
+ "C16": "Proved on a symbolic model with named hypotheses about the primitives (DH commutativity, AEAD correctness for the round trip; per-session AEAD integrity, KDF and DH injectivity on canonical keys for tampering): decrypt(encrypt x) = x for every LeaseSet2 the parser accepts, blob layout eph‖nonce‖ct‖tag, any single-byte change or other shared secret fails (partial: replacement ephemeral keys outside the canonical set are excluded — after the repair the top bit is rejected outright, proved), UTC-day derivation independent of the Location, blinding a function of (destination, secret, UTC day), kept fields, new key, the library's own check accepts exactly the derived factor for types 7 and 11. The real library is checked through the model's layout with independent crypto (x/crypto curve25519, hkdf, chacha20poly1305, filippo edwards25519), every bit of every blob flipped, instants either side of UTC midnight in several locations. " + TIE,
  "C07": "Proved: hash = H(bytes), address = unpadded I2P base32 of the hash + '.b32.i2p' with length 60 (incl. TrimRight('=') of the padded encoding = the unpadded encoding), Base64 decodes back, Equals iff equal bytes, and the serialisation determines every field (so any key/padding/certificate byte change changes the hashed bytes). SHA-256 is a parameter. " + TIE,
  "C08": "Proved on the model: a value all of whose byte fields are copies observes the same bytes whatever the caller's buffer is overwritten with, and every field of a parsed certificate / KeysAndCert / Destination / RouterIdentity is a copy (provenance table written from the Go code, with the pre-repair sub-slice as a proved counter-witness). Memory sharing itself is decided on the real library by the scribble oracle: after parsing, the whole input buffer is overwritten and every observation (serialisation, keys, leases, signature, offline block) is compared, for every accepted input of every structure in scope, and slices returned by accessors documented to copy are overwritten too. " + TIE,
  "C20": "Zero-value half: proved complete by kernel `decide` on every run — the reflective sweep of the freshly built library covers exactly the (type, argument-free exported method) pairs the source declares (259 today), none panics, no verification succeeds. Failed-parse half: explored, not proved — the same reflective method sweep runs on the value returned together with an error for every rejected generated input (truncations at and around every field boundary, mutations), and Verify on such values must not succeed. " + TIE,
@@ -29,10 +32,8 @@ NOTE = ("Trusted: Lean 4.33 kernel (axioms propext, Classical.choice, Quot.sound
 TECH = "Lean 4 theorems over a hand-written executable model + differential correspondence check against the real library + implementation-side property oracle"
 REASONS = {
  "C02": "not built yet: needs the spec-layer codecs and a spec-directed encoder with field comparison; partially covered under C01/C03/C09 (spec → parser acceptance for identities)",
- "C04": "being built: checked-slice Lean layer (no-panic + refinement theorems) and panic/deadline oracles exist in the harness; not yet registered",
- "C05": "being built: the implementation-side oracle (independent Ed25519/ECDSA/DSA verification over the raw bytes, adversarial derivations) runs under STRUCT; the Lean data-flow theorem is not written yet",
  "C06": "being built (constructor ops and classification of the open constructor findings)", "C14": "being built (constructor/Validate/parser rule sets; several open findings to classify)",
- "C16": "being built (encrypt/decrypt/blinding ops with independent crypto; symbolic Lean model)", "C18": "being built (generic schedule-independence theorem, SSA effect facts, race-detector soak)",
+ "C18": "being built (generic schedule-independence theorem, SSA effect facts, race-detector soak)",
 }
 props = [json.loads(l) for l in open(os.path.join(ROOT, "properties.jsonl"))]
 checks = []
